@@ -426,8 +426,12 @@ static int
 map_cmp(const void *a, const void *b)
 {
 	const struct pfn_file_map *mapa = a, *mapb = b;
-	return mapa->end_pfn != mapb->end_pfn
-		? (mapa->end_pfn > mapb->end_pfn ? 1 : -1)
+	if (mapa->end_pfn != mapb->end_pfn)
+		return mapa->end_pfn > mapb->end_pfn ? 1 : -1;
+	/* An empty window shares its end with the window below it;
+	 * it must sort after that window. */
+	return mapa->start_pfn != mapb->start_pfn
+		? (mapa->start_pfn > mapb->start_pfn ? 1 : -1)
 		: 0;
 }
 
